@@ -61,6 +61,9 @@ def rules_tla(rules):
 class _Env(object):
     tick = CLOCK0
     up = True
+    # 2: two consecutive versions of the upstream have the same picture (version 2k and 2k + 1): a refresh often brings
+    # the picture that is in the cache already.  Observed versions are then the odd representative of their class
+    vclass = 1
     logf = None
     installed = None
     null_handler = None
@@ -106,6 +109,11 @@ class _OsModule(object):
         os.utime(dst, ns=(ns, ns), follow_symlinks=False)
 
 
+def rep(v):
+    """what a picture tells about the version it shows"""
+    return (v // 2) * 2 + 1 if _Env.vclass == 2 and v > 0 else v
+
+
 def _big_queue(size):
     # capacity of the seeder's work queue: never make the walker wait for a worker that gave up
     return multiprocessing.Queue(64)
@@ -132,7 +140,7 @@ def _fake_http_open(self, url, data=None, method=None):
     if v is None:
         raise HTTPClientError('No response from URL "%s": upstream is down' % url)
     buf = io.BytesIO()
-    Image.new('RGB', size, (v // 256, v % 256, 77)).save(buf, 'PNG')
+    Image.new('RGB', size, (rep(v) // 256, rep(v) % 256, 77)).save(buf, 'PNG')
     buf.seek(0)
     buf.headers = {'content-type': 'image/png'}
     buf.code = 200
@@ -256,6 +264,7 @@ class World(object):
         self.log_pos = 0
         _Env.tick = CLOCK0
         _Env.up = True
+        _Env.vclass = 2 if backend == 'file-symlink' else 1
         _Env.logf = self.logf
         self.rule = R('none')
         self.nset = 0
@@ -416,6 +425,7 @@ class World(object):
             raise ValueError(op)
         res['delta'] = self.delta()
         res['cache'] = self.cache_obs()
+        res['vc'] = _Env.vclass
         return res
 
     def seed(self, srule):
@@ -582,7 +592,7 @@ def _make_source_class():
             v = _upstream(query.bbox, query.size)
             if v is None:
                 raise SourceError('upstream is down')
-            img = Image.new('RGB', query.size, (v // 256, v % 256, 77))
+            img = Image.new('RGB', query.size, (rep(v) // 256, rep(v) % 256, 77))
             return ImageSource(img, image_opts=self.image_opts)
 
     return _RecordingSource
@@ -641,11 +651,11 @@ def consts_for(names, path, trunc, rules, seedrules, prec, maxclock, backdating=
 
 def expected_of(state, prev_loglen):
     """projection of a TLC state to what the harness observes"""
-    cache = {str(t): [int(e['m']), int(e['v'])] for t, e in state['cache'].items()}
+    cache = {str(t): [int(e['m']), rep(int(e['v']))] for t, e in state['cache'].items()}
     log = state['log'] if state['log'] != () else ()
     delta = [[str(e['u']), bool(e['ok'])] for e in list(log)[prev_loglen:]]
-    rep = state['reply']
-    return cache, delta, str(rep['kind']), [int(x) for x in (rep['served'] or ())], len(log)
+    reply = state['reply']
+    return cache, delta, str(reply['kind']), [rep(int(x)) for x in (reply['served'] or ())], len(log)
 
 
 def thr_ticks(rule, clock, file_m):
